@@ -44,6 +44,14 @@ pub fn run(case: &str, args: &[String]) -> Option<Value> {
         "idc.client_secret" => res(idv::client_secret::validate(&a[0])),
         "idc.base64_public_key" => res(idv::base64_public_key::validate(&a[0])),
         "idc.server_signing_key_version" => res(idv::server_signing_key_version::validate(&a[0])),
+        "ev.timeline" => match serde_json::from_str::<ruma_events::AnyTimelineEvent>(&a[0]) {
+            Ok(e) => json!({"outcome": "ok", "detail": format!("{:?}", e.event_type())}),
+            Err(e) => json!({"outcome": "err", "detail": e.to_string()}),
+        },
+        "ev.sync_state" => match serde_json::from_str::<ruma_events::AnySyncStateEvent>(&a[0]) {
+            Ok(e) => json!({"outcome": "ok", "detail": format!("{:?}", e.event_type())}),
+            Err(e) => json!({"outcome": "err", "detail": e.to_string()}),
+        },
         "ids.mxc_parts" => {
             let m = <&ruma_common::MxcUri>::from(a[0].as_str());
             res(m.parts().map(|(s, m)| (s.as_str().to_owned(), m.to_owned())))
